@@ -88,9 +88,15 @@ WinCaseY(j, q) == IF WinPtY(q)[1] # "ok" THEN <<>>
                   ELSE << Craft(j, "valid-window-y2", Dof(j), WinPtY(q)[2], EncodePoint(WinPtY(q)[2], FALSE), "c1c3c2"),
                           CraftC(j, "comp-valid-window-y2", Dof(j), WinPtY(q)[2], EncodePoint(WinPtY(q)[2], TRUE), "c1c3c2") >>
 WinCases(j) == IF j > 1 THEN <<>> ELSE WinCase(j, 1) \o WinCase(j, 2) \o WinCase(j, 3) \o WinCase(j, 4) \o WinCaseY(j, 1) \o WinCaseY(j, 2) \o WinCaseY(j, 3)
+\* a nonce whose key stream for a ONE-byte message is the zero byte (GB/T 32918.4 step A5: t all zero -> back to A1 with a NEW nonce): 1 in 256; searched among
+\* k = 2, 3, ... for the key of index 1.  The driver scripts [that nonce, another one]: the ciphertext must be the one of the second nonce alone.
+RECURSIVE FindZeroT(_, _, _)
+FindZeroT(pt, k, lim) == IF k > lim THEN <<>> ELSE IF KDF(B32(MulN(<<k \div 256, k % 256>>, pt)[1]) \o B32(MulN(<<k \div 256, k % 256>>, pt)[2]), 1) = <<0>> THEN B32(BFromBE(<<k \div 256, k % 256>>)) ELSE FindZeroT(pt, k + 1, lim)
+EncRetryRec(j, kz) == [kind |-> "encretry", d |-> B32(Dof(j)), kbad |-> kz, found |-> IF kz = <<>> THEN 0 ELSE 1]
+EncRetry(j) == IF j > 1 THEN <<>> ELSE << EncRetryRec(j, FindZeroT(MulN(Dof(j), G), 2, 2500)) >>
 Init == pidx = 0 /\ pout = <<>>
 Next == pidx < NK /\ pidx' = pidx + 1 /\
         pout' = << SpecCt(pidx + 1, "c1c2c3", FALSE), SpecCt(pidx + 1, "c1c3c2", FALSE), SpecCt(pidx + 1, "c1c2c3", TRUE), SpecCt(pidx + 1, "c1c3c2", TRUE) >>
-                \o XPlusP(pidx + 1, Small[pidx + 1]) \o YPlusP(pidx + 1, Small[pidx + 1]) \o OffCurve(pidx + 1) \o NonResCt(pidx + 1) \o XPlusPC(pidx + 1, Small[pidx + 1]) \o XEqP(pidx + 1) \o WinCases(pidx + 1)
+                \o XPlusP(pidx + 1, Small[pidx + 1]) \o YPlusP(pidx + 1, Small[pidx + 1]) \o OffCurve(pidx + 1) \o NonResCt(pidx + 1) \o XPlusPC(pidx + 1, Small[pidx + 1]) \o XEqP(pidx + 1) \o WinCases(pidx + 1) \o EncRetry(pidx + 1)
 Emit == \A j \in 1..Len(pout) : PrintT(<<"PLAN", ToJson(pout[j])>>)
 =============================================================================
